@@ -262,6 +262,10 @@ def worker(case):
         if case.get("unzck"):
             os.makedirs(cdir, exist_ok=True)
             open(os.path.join(cdir, "u.zck"), "wb").write(data)
+            if int(cid, 16) % 2 == 0:
+                # an older, longer file of the output's name is already there
+                open(os.path.join(cdir, "u"), "wb").write(b"old contents of the output file\n" * 4000)
+                stats["unzck_over_an_existing_output_file"] = 1
             u = core.run_proc([case["unzck"], "u.zck"], cdir)
             us = core.crash_signatures(u, "unzck")
             stats["unzck_runs"] = 1
